@@ -83,11 +83,12 @@ fn real_main() {
     }
     let mut outcomes = vec![];
     let findings = report::load_findings();
+    let golden = report::load_golden(&prop);
     for j in jobs.iter() {
         // failure kinds that a listed finding classifies by site predicate (core "*") for this property and system
         let site_kinds: std::collections::HashSet<String> = findings.iter().filter(|f| f.property == prop).flat_map(|f| f.matchers.iter()).filter(|m| m.core == "*" && m.system == j.system()).map(|m| m.kind.clone()).collect();
         let known: std::collections::HashSet<(String, String)> = findings.iter().filter(|f| f.property == prop).flat_map(|f| f.matchers.iter()).filter(|m| m.system == j.system()).map(|m| (m.kind.clone(), m.core.clone())).collect();
-        let o = j.run(threads, &site_kinds, &known);
+        let o = j.run(threads, &site_kinds, &known, golden.get(&j.family()));
         eprintln!(
             "  [{}] {} / {}: histories={} states={} applies={} merges={} aux={} outcomes={} failing_histories={} cores={} {:.1}s",
             prop, o.system, o.label, o.stats.histories, o.stats.states, o.stats.applies, o.stats.merges, o.stats.aux_transitions, o.stats.outcomes.len(), o.failing_histories, o.cores.len(), o.wall_s
